@@ -4,6 +4,7 @@ import Driver.ConcDrv
 import Driver.FmtDrv
 import Driver.NamesDrv
 import FlexiVerif.Model.Buf
+import FlexiVerif.Model.Fmt
 import FlexiVerif.Model.ErrChan
 /-
   Line-protocol driver: reads cases from stdin, answers every line with one line.
@@ -70,6 +71,12 @@ def stepLine (st : MSt) (line : String) : MSt × String :=
           if d = 0 then (st, "bad-op") else
           let mids := (List.range (d - 1)).map (fun j => s!"inner{j + 2} x{j + 1}\r\n")
           (st, Drv.textToHex (("inner1\r\n" ++ String.join mids ++ s!"outer x{d}\r\nplain\r\n").toList))
+        | none => (st, "bad-op")
+      -- the in-memory log target as an OUTPUT (C20): the snapshot is the framed records, each the
+      -- format output plus one line ending (`Fmt.frame`), whatever the message text ends with
+      | "BUFFRAME" :: _max :: msgs =>
+        match msgs.mapM Drv.hexToText with
+        | some ms => (st, Drv.textToHex (ms.flatMap (fun m => FV.Fmt.frame ['\n'] m)))
         | none => (st, "bad-op")
       -- the error channel: the reports of the reference run (an openable error file), routed by the
       -- model to the channel under test
